@@ -597,17 +597,21 @@ Proof.
   - rewrite unit_region_len, Z2Nat.id by lia. reflexivity.
 Qed.
 
-(* F6: rfbSendCopyRegion has no space check *)
-Lemma copyregion_fits_small : forall n, 0 <= n ->
-  n <= (UPDATE_BUF_SIZE - sz_FramebufferUpdateMsg) / (sz_FramebufferUpdateRectHeader + sz_CopyRect) ->
-  copyregion_fits sz_FramebufferUpdateMsg n = true.
+(* F6 repaired (e68aae9): with the flush, no write of rfbSendCopyRegion leaves updateBuf, for any
+   number of copy rectangles and any starting fill level *)
+Lemma copy_rect_bytes_fit : 0 < copy_rect_bytes <= UPDATE_BUF_SIZE.
+Proof. split; [reflexivity|discriminate]. Qed.
+
+Lemma copy_peak_inside : forall n u, 0 <= u <= UPDATE_BUF_SIZE ->
+  0 <= copy_peak n u <= UPDATE_BUF_SIZE /\ 0 <= copy_ublen n u <= UPDATE_BUF_SIZE.
 Proof.
-  intros n H0 H. unfold copyregion_fits.
-  assert (P : 0 < sz_FramebufferUpdateRectHeader + sz_CopyRect) by reflexivity.
-  pose proof (Z.mul_div_le (UPDATE_BUF_SIZE - sz_FramebufferUpdateMsg) _ P). nia.
+  pose proof copy_rect_bytes_fit as F.
+  induction n as [|k IH]; intros u Hu; cbn [copy_peak copy_ublen]; [lia|].
+  set (v := (if u + copy_rect_bytes >? UPDATE_BUF_SIZE then 0 else u) + copy_rect_bytes).
+  assert (Hv : 0 <= v <= UPDATE_BUF_SIZE) by (unfold v; destruct (u + copy_rect_bytes >? UPDATE_BUF_SIZE) eqn:?; lia).
+  destruct (IH v Hv) as [P Q]. split; [lia|exact Q].
 Qed.
 
-Lemma copyregion_overflow_witness :
-  copyregion_fits sz_FramebufferUpdateMsg
-    ((UPDATE_BUF_SIZE - sz_FramebufferUpdateMsg) / (sz_FramebufferUpdateRectHeader + sz_CopyRect) + 1) = false.
-Proof. reflexivity. Qed.
+Lemma copy_peak_example :
+  copy_peak (Z.to_nat 2080) sz_FramebufferUpdateMsg = 32756 /\ copy_ublen (Z.to_nat 2080) sz_FramebufferUpdateMsg = 528.
+Proof. split; vm_compute; reflexivity. Qed.
